@@ -1,5 +1,6 @@
 import LeptosModel.Proofs.ViewFinal
 import LeptosModel.Proofs.ViewSer2
+import LeptosModel.Proofs.ViewAttrs3
 /-!
 # C03 — updating a view in place gives the same DOM as rendering it fresh
 
@@ -471,6 +472,211 @@ theorem C03_rebuild_seq_attrvalues (ty : Ty) (p : Id) (pre post : List Id) (n0 :
       hta htb ha hb hok hs
     exact C03_rebuild_seq_attrvalues ty p pre post n0 preT postT bs b _ _ htb hb hrest hok' hs'
 
+/-! ## stage 2b: item-wise `class` / `style` writers — `class:name=bool` toggles next to named
+attributes and whole-value strings, as long as the footprints of the items of one element are
+pairwise disjoint (`ItemAttrs`, `ItemPair`: this is exactly where the finding classes
+`class-overwrite`, `style-overwrite`, `dup-item` are excluded); elements compared on *cells*
+(`AttrsSim`: named attributes as a map, `class` as a token set, `style` as a declaration map) -/
+
+mutual
+theorem PairEl.mono {P Q : List AttrVal → List AttrVal → Prop} (h : ∀ as bs, P as bs → Q as bs) :
+    ∀ (a b : View), PairEl P a b → PairEl Q a b
+  | .text _, b, _ => by cases b <;> simp [PairEl]
+  | .unit, b, _ => by cases b <;> simp [PairEl]
+  | .onone, b, _ => by cases b <;> simp [PairEl]
+  | .elem _ as c, b, hp => by
+    cases b <;> simp only [PairEl] at hp ⊢ <;> try trivial
+    exact ⟨h _ _ hp.1, PairEl.mono h c _ hp.2⟩
+  | .tuple vs, b, hp => by
+    cases b <;> simp only [PairEl] at hp ⊢ <;> try trivial
+    exact PairElList.mono h vs _ hp
+  | .osome v, b, hp => by
+    cases b <;> simp only [PairEl] at hp ⊢ <;> try trivial
+    exact PairEl.mono h v _ hp
+  | .either _ _ v, b, hp => by
+    cases b <;> simp only [PairEl] at hp ⊢ <;> try trivial
+    exact fun e => PairEl.mono h v _ (hp e)
+  | .vec vs, b, hp => by
+    cases b <;> simp only [PairEl] at hp ⊢ <;> try trivial
+    exact PairElList.mono h vs _ hp
+  | .any _ v, b, hp => by
+    cases b <;> simp only [PairEl] at hp ⊢ <;> try trivial
+    exact fun e => PairEl.mono h v _ (hp e)
+theorem PairElList.mono {P Q : List AttrVal → List AttrVal → Prop} (h : ∀ as bs, P as bs → Q as bs) :
+    ∀ (vs ws : List View), PairElList P vs ws → PairElList Q vs ws
+  | [], _, _ => by simp [PairElList]
+  | _ :: _, [], _ => by simp [PairElList]
+  | v :: vs, w :: ws, hp => by
+    simp only [PairElList] at hp ⊢
+    exact ⟨PairEl.mono h v w hp.1, PairElList.mono h vs ws hp.2⟩
+end
+
+mutual
+/-- decidable form of `PairEl ItemPair`: every element that a rebuild of `a` into `b` retains has
+compatible old and new attribute items -/
+def View.pairItems : View → View → Bool
+  | .elem _ as c, .elem _ bs c' => decide (ItemPair as bs) && View.pairItems c c'
+  | .tuple vs, .tuple ws => View.pairItemsList vs ws
+  | .osome v, .osome w => View.pairItems v w
+  | .either _ i v, .either _ j w => i != j || View.pairItems v w
+  | .vec vs, .vec ws => View.pairItemsList vs ws
+  | .any t v, .any t' w => !Ty.beq t' t || View.pairItems v w
+  | _, _ => true
+def View.pairItemsList : List View → List View → Bool
+  | v :: vs, w :: ws => View.pairItems v w && View.pairItemsList vs ws
+  | _, _ => true
+end
+
+mutual
+theorem pairItems_sound : ∀ (a b : View), a.pairItems b = true → PairEl ItemPair a b
+  | .text _, b, _ => by cases b <;> simp [PairEl]
+  | .unit, b, _ => by cases b <;> simp [PairEl]
+  | .onone, b, _ => by cases b <;> simp [PairEl]
+  | .elem _ as c, b, hp => by
+    cases b <;> simp only [PairEl] <;> try trivial
+    simp [View.pairItems] at hp
+    exact ⟨hp.1, pairItems_sound c _ hp.2⟩
+  | .tuple vs, b, hp => by
+    cases b <;> simp only [PairEl] <;> try trivial
+    simp only [View.pairItems] at hp
+    exact pairItemsList_sound vs _ hp
+  | .osome v, b, hp => by
+    cases b <;> simp only [PairEl] <;> try trivial
+    simp only [View.pairItems] at hp
+    exact pairItems_sound v _ hp
+  | .either _ i v, b, hp => by
+    cases b <;> simp only [PairEl] <;> try trivial
+    simp [View.pairItems] at hp
+    intro e
+    rcases hp with hp | hp
+    · exact absurd e hp
+    · exact pairItems_sound v _ hp
+  | .vec vs, b, hp => by
+    cases b <;> simp only [PairEl] <;> try trivial
+    simp only [View.pairItems] at hp
+    exact pairItemsList_sound vs _ hp
+  | .any t v, b, hp => by
+    cases b <;> simp only [PairEl] <;> try trivial
+    simp [View.pairItems] at hp
+    intro e
+    rcases hp with hp | hp
+    · rw [e] at hp; cases hp
+    · exact pairItems_sound v _ hp
+theorem pairItemsList_sound : ∀ (vs ws : List View), View.pairItemsList vs ws = true →
+    PairElList ItemPair vs ws
+  | [], _, _ => by simp [PairElList]
+  | _ :: _, [], _ => by simp [PairElList]
+  | v :: vs, w :: ws, hp => by
+    simp [View.pairItemsList] at hp
+    simp only [PairElList]
+    exact ⟨pairItems_sound v w hp.1, pairItemsList_sound vs ws hp.2⟩
+end
+
+mutual
+/-- every element of the view has covered items with pairwise disjoint footprints -/
+def View.inFragment3 : View → Bool
+  | .elem _ as c => decide (ItemAttrs as) && View.inFragment3 c
+  | .tuple vs => View.inFragment3List vs
+  | .osome v => View.inFragment3 v
+  | .either _ _ v => View.inFragment3 v
+  | .vec vs => View.inFragment3List vs
+  | .any _ v => View.inFragment3 v
+  | _ => true
+def View.inFragment3List : List View → Bool
+  | [] => true
+  | v :: vs => View.inFragment3 v && View.inFragment3List vs
+end
+
+mutual
+theorem inFragment3_allEl : ∀ (v : View), v.inFragment3 = true → AllEl ItemAttrs v
+  | .text _, _ => by simp [AllEl]
+  | .unit, _ => by simp [AllEl]
+  | .onone, _ => by simp [AllEl]
+  | .elem _ as c, h => by
+    simp [View.inFragment3] at h; simp only [AllEl]; exact ⟨h.1, inFragment3_allEl c h.2⟩
+  | .tuple vs, h => by
+    simp only [View.inFragment3] at h; simp only [AllEl]; exact inFragment3List_allEl vs h
+  | .osome v, h => by
+    simp only [View.inFragment3] at h; simp only [AllEl]; exact inFragment3_allEl v h
+  | .either _ _ v, h => by
+    simp only [View.inFragment3] at h; simp only [AllEl]; exact inFragment3_allEl v h
+  | .vec vs, h => by
+    simp only [View.inFragment3] at h; simp only [AllEl]; exact inFragment3List_allEl vs h
+  | .any _ v, h => by
+    simp only [View.inFragment3] at h; simp only [AllEl]; exact inFragment3_allEl v h
+theorem inFragment3List_allEl : ∀ (vs : List View), View.inFragment3List vs = true →
+    AllElList ItemAttrs vs
+  | [], _ => by simp [AllElList]
+  | v :: vs, h => by
+    simp [View.inFragment3List] at h; simp only [AllElList]
+    exact ⟨inFragment3_allEl v h.1, inFragment3List_allEl vs h.2⟩
+end
+
+/-- **C03_build_mount**, stage 2b -/
+theorem C03_build_mount_items (v : View) (d : Dom) (p : Id) (pre post : List Id) (rp : NodeRec)
+    (n0 : Nat) (preT postT : List Tree)
+    (hv : v.inFragment3 = true)
+    (hp : d.get? p = some rp) (hpe : rp.kind.isElem = true) (hk : rp.kids = pre ++ post)
+    (hplt : p < d.next) (hsl : ∀ x, x ∈ pre ++ post → x < d.next)
+    (hanchor : Anchor d p post.head? pre post)
+    (hs : SiblingsOk d [] p pre post n0 preT postT) :
+    StateOk AttrsSim (mount (build v d).2 (build v d).1 p post.head?) v (build v d).2 p pre post ∧
+    SiblingsOk (mount (build v d).2 (build v d).1 p post.head?) (owned (build v d).2) p pre post
+      n0 preT postT ∧
+    (∀ m, max n0 v.depth ≤ m → ∃ ts,
+      serListN m (mount (build v d).2 (build v d).1 p post.head?)
+        ((mount (build v d).2 (build v d).1 p post.head?).kidsOf p) = some ts ∧
+      Tree.simList AttrsSim ts (preT ++ render v ++ postT)) := by
+  obtain ⟨hok, hle, hfr, hge⟩ := build_mount_spec (R := AttrsSim) v d p pre post rp
+    (AllEl.mono AttrsFresh_items v (inFragment3_allEl v hv)) hp hpe hk hplt hsl hanchor
+  have hs' := hs.step hle (fun x hx _ hxp => hfr x hx hxp) (fun x hx => Or.inr (hge x hx))
+  exact ⟨hok, hs', hok.serSim AttrsSim.refl hs'⟩
+
+/-- **C03_rebuild_eq_fresh**, stage 2b: every structural combinator incl. `AnyView`; per element
+any mix of named attribute values, `class:name=bool` toggles, whole-value `class` / `style` strings
+whose footprints are pairwise disjoint — in the old value, in the new value, and across the two
+for the elements that are retained (`pairItems`, decidable).  After `rebuild b` the parent
+serialises to `pre ++ render b ++ post` with every element's cells (named attributes, class
+tokens, style declarations) equal to those of the fresh render. -/
+theorem C03_rebuild_eq_fresh_items (a b : View) (ty : Ty) (st : State) (d : Dom) (p : Id)
+    (pre post : List Id) (n0 : Nat) (preT postT : List Tree)
+    (hta : HasTy a ty) (htb : HasTy b ty)
+    (hb : b.inFragment3 = true) (hab : a.pairItems b = true)
+    (hok : StateOk AttrsSim d a st p pre post)
+    (hs : SiblingsOk d (owned st) p pre post n0 preT postT) :
+    StateOk AttrsSim (rebuild false b st d).1 b (rebuild false b st d).2 p pre post ∧
+    SiblingsOk (rebuild false b st d).1 (owned (rebuild false b st d).2) p pre post n0 preT postT ∧
+    (∀ m, max n0 b.depth ≤ m → ∃ ts,
+      serListN m (rebuild false b st d).1 ((rebuild false b st d).1.kidsOf p) = some ts ∧
+      Tree.simList AttrsSim ts (preT ++ render b ++ postT)) := by
+  obtain ⟨h1, h2⟩ := rebuild_core (R := AttrsSim) b a ty st false d p pre post hta.1 hta.2 htb.2
+    (PairEl.mono AttrsRebuild_items a b (pairItems_sound a b hab))
+    (AllEl.mono AttrsFresh_items b (inFragment3_allEl b hb)) hok.rep hok.inv
+  have hok' : StateOk AttrsSim _ b _ p pre post := ⟨h1, h2.inv⟩
+  have hs' := hs.step h2.next_le h2.frame h2.own
+  exact ⟨hok', hs', hok'.serSim AttrsSim.refl hs'⟩
+
+def allItemSteps (ty : Ty) : View → List View → Prop
+  | _, [] => True
+  | a, b :: bs => HasTy b ty ∧ b.inFragment3 = true ∧ a.pairItems b = true ∧ allItemSteps ty b bs
+
+/-- **C03_rebuild_seq**, stage 2b -/
+theorem C03_rebuild_seq_items (ty : Ty) (p : Id) (pre post : List Id) (n0 : Nat)
+    (preT postT : List Tree) :
+    ∀ (bs : List View) (a : View) (st : State) (d : Dom),
+    HasTy a ty → allItemSteps ty a bs →
+    StateOk AttrsSim d a st p pre post → SiblingsOk d (owned st) p pre post n0 preT postT →
+    StateOk AttrsSim (rebuildAll bs st d).1 (lastView a bs) (rebuildAll bs st d).2 p pre post ∧
+    (∀ m, max n0 (lastView a bs).depth ≤ m → ∃ ts,
+      serListN m (rebuildAll bs st d).1 ((rebuildAll bs st d).1.kidsOf p) = some ts ∧
+      Tree.simList AttrsSim ts (preT ++ render (lastView a bs) ++ postT))
+  | [], a, st, d, _, _, hok, hs => ⟨hok, hok.serSim AttrsSim.refl hs⟩
+  | b :: bs, a, st, d, hta, hbs, hok, hs => by
+    obtain ⟨htb, hb, hab, hrest⟩ := hbs
+    obtain ⟨hok', hs', _⟩ := C03_rebuild_eq_fresh_items a b ty st d p pre post n0 preT postT
+      hta htb hb hab hok hs
+    exact C03_rebuild_seq_items ty p pre post n0 preT postT bs b _ _ htb hrest hok' hs'
+
 /-! ## the full statement, and its refutation -/
 
 /-- executable instance of the property in the canonical context: a root element without
@@ -675,5 +881,22 @@ example :
     a.inFragment2 = true ∧ b.inFragment2 = true ∧ a.inFragment = false ∧
     updateSeqEqFresh a [b, a] = true := by decide
 
+
+set_option maxRecDepth 16384 in
+/-- non-vacuity for stage 2b: toggles are switched and RENAMED next to named attributes and a style
+string; the excluded shapes are exactly the finding classes -/
+example :
+    let a : View := .elem "div" [.str "id" "x", .tcls "a" true, .tcls "b" false, .ostr "title" none, .sty "color: red;"] .unit
+    let b : View := .elem "div" [.str "id" "y", .tcls "c" true, .tcls "b" true, .ostr "title" (some "t"), .sty "width: 1px"] .unit
+    a.inFragment3 = true ∧ b.inFragment3 = true ∧ a.pairItems b = true ∧ b.pairItems a = true ∧
+    b.inFragment2 = false ∧ updateSeqEqFresh a [b, a, b] = true := by decide
+
+set_option maxRecDepth 16384 in
+/-- what `pairItems` / `inFragment3` exclude: class-overwrite, dup-item, dup-item across a rename -/
+example :
+    witnessB.inFragment3 = false ∧
+    (View.elem "div" [.tcls "on" false, .tcls "on" true] .unit).inFragment3 = false ∧
+    View.pairItems (.elem "div" [.tcls "a" true, .tcls "b" true] .unit)
+      (.elem "div" [.tcls "b" true, .tcls "a" true] .unit) = false := by decide
 
 end Leptos.View
